@@ -4,12 +4,12 @@ go 1.25
 
 require (
 	github.com/anishathalye/porcupine v1.3.0
+	github.com/ava-labs/avalanchego v1.13.1-rc.0.0.20250414210208-c8b3f57d2a25
 	github.com/ava-labs/hypersdk v0.0.0-00010101000000-000000000000
 	github.com/ava-labs/hypersdk/examples/morpheusvm v0.0.0-00010101000000-000000000000
 )
 
 require (
-	github.com/ava-labs/avalanchego v1.13.1-rc.0.0.20250414210208-c8b3f57d2a25 // indirect
 	github.com/beorn7/perks v1.0.1 // indirect
 	github.com/cenkalti/backoff/v4 v4.2.1 // indirect
 	github.com/cespare/xxhash/v2 v2.3.0 // indirect
